@@ -634,9 +634,6 @@ func (c *vfC15RCtx) plan(args []string) *vfC15RStep {
 // their own signature; anything else is "<command group>:<model state class>".
 func (c *vfC15RCtx) classify(st *vfC15RStep, r *vfRespValue, classBefore string, holderBefore int, existedBefore bool) string {
 	name := st.args[0]
-	if strings.HasPrefix(classBefore, "expired-px") {
-		return vfC15RSigPX
-	}
 	if holderBefore == vfC15RHoldNX && st.refused != nil && vfC15RMatch(r, st.refused) {
 		return "nx-created-key:write-refused"
 	}
@@ -669,6 +666,9 @@ func (c *vfC15RCtx) classify(st *vfC15RStep, r *vfRespValue, classBefore string,
 		if strings.HasPrefix(classBefore, "numeric-stored-value") {
 			return "APPEND:numeric-stored-value"
 		}
+	}
+	if strings.HasPrefix(classBefore, "expired-px") {
+		return vfC15RSigPX
 	}
 	if (name == "GET" || name == "GETSET") && strings.HasPrefix(classBefore, "empty-stored-value") && r.Kind == '$' && r.Null {
 		return "GET:empty-value-answers-nil"
